@@ -32,10 +32,11 @@ def run_spec(V, label, c, emit=True, coverage=False):
         cases = []
         if emit:
             for t in E.extract_tuples(res.stdout, 'CASE'):
-                _, frame, batch, sel, parts = t
+                _, frame, batch, sel, parts, cands, allparts = t
                 cases.append({'frame': [[list(v) for v in E.fun_to_list(col)] for col in E.fun_to_list(frame)], 'batch': batch,
                               'sel': [list(s) for s in E.fun_to_list(sel)] if sel else [],
-                              'parts': [E.fun_to_list(p) for p in E.fun_to_list(parts)] if parts else []})
+                              'parts': [E.fun_to_list(p) for p in E.fun_to_list(parts)] if parts else [],
+                              'cands': [list(c_) for c_ in E.fun_to_list(cands)], 'allparts': [E.fun_to_list(p) for p in E.fun_to_list(allparts)]})
         return res, cases
     finally:
         E.cleanup(wd)
@@ -111,30 +112,50 @@ def main():
             meta.append((bb, names, cmap))
         got = PC.pipe_eval(jobs)
         nontriv = 0
+        drift_sel = [0]
         for job, (bb, names, cmap), r in zip(jobs, meta, got):
             fkey = f'frame={ {n: job["frame"][n] for n in names} } order={c["Order"]} cap={c["Cap"]}'
             if r is None or 'ok' not in r:
                 kind = 'raises:' + (r or {}).get('type', 'crash')
                 V.violation(f'{kind}:{fkey}', f'compute_combined_features failed: {PC.failure_text(r)}', job)
                 continue
+            counts = {}
             for b, ob in enumerate(r['ok'], start=1):
                 cs = bb[b]
-                exp_names = [' AND '.join(names[i - 1] for i in s) for s in cs['sel']]
                 key = f'{fkey} batch={b}'
+                valid = {' AND '.join(names[i - 1] for i in cmb): (tuple(cmb), part) for cmb, part in zip(cs['cands'], cs['allparts'])}
+                exp_names = [' AND '.join(names[i - 1] for i in s_) for s_ in cs['sel']]
                 if len({tuple(p) for p in cs['parts']}) > 0 and any(len(set(p)) > 1 for p in cs['parts']):
                     nontriv += 1
+                # property level: names = constituents joined by " AND " for combinations of the non-label columns; exactly
+                # min(cap, #candidates) distinct ones, least evaluated first (ties in any way; the order of the new columns is free)
+                cap_, ncand = job['args']['combination_number_upper_bound'], len(valid)
+                if any(nm_ not in valid for nm_ in ob['new']) or len(set(ob['new'])) != len(ob['new']):
+                    V.violation('names:' + key, f'new columns {ob["new"]}: not distinct order-{c["Order"]} combinations of the non-label columns joined by " AND " (valid: {sorted(valid)})', job)
+                    break
+                if len(ob['new']) != min(cap_, ncand):
+                    V.violation('count:' + key, f'{len(ob["new"])} interaction features constructed, cap={cap_}, candidates={ncand}', job)
+                    break
+                for nm_ in valid:
+                    counts.setdefault(nm_, 0)
+                if any(counts[a_] > counts[u_] for a_ in ob['new'] for u_ in valid if u_ not in ob['new']):
+                    V.violation('least-first:' + key, f'constructed {ob["new"]} although less-evaluated candidates exist (counts before {counts})', job)
+                    break
+                for nm_ in ob['new']:
+                    counts[nm_] += 1
                 if ob['new'] != exp_names:
-                    V.violation('names:' + key, f'new columns {ob["new"]}, specified {exp_names} (combinations of the non-label columns in column order, least-evaluated first, joined by " AND ")', job)
-                    continue
+                    drift_sel[0] += 1
                 if not ob['untouched']:
                     V.violation('originals:' + key, 'original columns/values/dtypes/row order changed', job)
-                for nm, part in zip(exp_names, cs['parts']):
+                for nm in ob['new']:
+                    part = valid[nm][1]
                     if canon(ob['parts'][nm]) != canon(part):
                         V.violation(f'kernel:{key} feature={nm}', f'rows grouped as {canon(ob["parts"][nm])} by the interaction feature, joint values group them as {canon(part)}', job)
                     for (sh, st), flag in zip(ob['scores'].get(nm, []), (False, True)):
                         if abs(sh - st) > 1e-6:
                             V.violation(f'score:{key} feature={nm} corrected={flag}', f'score of interaction feature {sh!r} != score of explicit tuple {st!r}', job)
         V.count(evaluations=len(cases), nontrivial=nontriv, traces=len(cases))
+        V.notes[f'{label}_selection_order_drift'] = drift_sel[0]
         V.add_sample({'run': label, 'job': {k: jobs[len(jobs) // 2][k] for k in ('columns', 'frame', 'args')}, 'real': got[len(jobs) // 2].get('ok') if got[len(jobs) // 2] else None})
     V.coverage['exhaustive'] = True
     return V.finish()
